@@ -175,8 +175,11 @@ def gen_duration_parts(rng):
             v = Fraction(rng.choice([1, 1, 2, 3, 5, 10, 12, 24, 30, 45, 90, 100]))
             if rng.chance(25):
                 v = v + Fraction(rng.choice([5, 25, 75, 1, 2]), rng.choice([10, 100]))
+            if unit == 10**6 and rng.chance(30):      # '1.1 s', '0.7 s', '0.1 s': lengths no double holds exactly
+                v = Fraction(rng.choice([1, 3, 7, 11, 13, 23, 101, 999]), rng.choice([10, 10, 100, 1000]))
         elif unit == 1000:
-            v = Fraction(rng.choice([1, 5, 100, 250, 500, 1500])) + (Fraction(rng.range(1, 9), 10) if rng.chance(20) else 0)
+            v = Fraction(rng.choice([1, 5, 100, 100, 200, 250, 300, 500, 700, 1500, rng.range(1, 999)])) + \
+                (Fraction(rng.range(1, 9), 10) if rng.chance(20) else 0)
         else:
             v = Fraction(rng.choice([1, 2, 10, 500, 999999, 1000000]))
         parts.append((v, unit))
@@ -265,7 +268,9 @@ def gen_tod(rng):
 def gen_meaning(rng):
     k = rng.below(100)
     if k < 12:
-        us = rng.choice([HOUR, DAY, 90 * 60 * 10**6, 10**6, 7 * DAY, 1500, 36 * HOUR, rng.range(1, 10**7) * 1000])
+        us = rng.choice([HOUR, DAY, 90 * 60 * 10**6, 10**6, 7 * DAY, 1500, 36 * HOUR, rng.range(1, 10**7) * 1000,
+                         100000, 200000, 300000, 700000, 1100000, 2300000, 10000, 1000, 333, 7, 60100000,
+                         rng.range(1, 5000) * 100, rng.range(1, 10**6)])
         return ("interval", us)
     if k < 30:
         return ("duration", gen_duration_parts(rng))
@@ -402,10 +407,23 @@ def gen_stamps(rng, sem, c_us, rec_off, n):
     cap = max(per, 1) * 4000     # keep the catch-up loop short for tiny intervals
     tau = c
     out = []
+    on_far_boundary = False
     for _ in range(n):
         b = next_boundary(sem, tau, c)
-        k = rng.below(12)
-        if k == 0:
+        k = rng.below(14)
+        if on_far_boundary and rng.chance(70):
+            k = rng.choice([1, 6, 7, 2])     # … followed by a record inside the period that has just begun
+        on_far_boundary = False
+        if k >= 12:
+            # EXACTLY on a boundary several periods ahead (the limit must then move past it by one whole period,
+            # however the number of elapsed periods is computed)
+            t = b
+            for _ in range(rng.choice([1, 2, 3, 3, 4, 5, 6, 7, 9, 10, 12, 20, 50])):
+                t = next_boundary(sem, t, c)
+            if (t - b) // US > cap:
+                t = b
+            on_far_boundary = True
+        elif k == 0:
             t = tau
         elif k == 1:
             t = tau + US
@@ -787,6 +805,9 @@ def run(ctx):
             ctx.stat("aware_time")
             ctx.stat("aware_time_tzinfo:" + type(obj.tzinfo).__name__)
         ctx.stat("rotations", sum(bits))
+        if rng.chance(6):
+            obj = rng.choice([[obj], (obj,), {obj}, [[obj]]])     # a container of one condition is that condition
+            ctx.stat("in_container")
         if i < 4:
             ctx.sample({"stream": "fn", "spelling": obj if isinstance(obj, str) else repr(obj), "creation_us": eff,
                         "offset_us": off, "stamps": stamps, "expected": exp[1]})
@@ -950,6 +971,9 @@ def run(ctx):
     # ---- stream 7: get_ctime / set_ctime on real files with a history (no patching)
     run_ctime_stream(ctx, drv, rng)
 
+    # ---- stream 8: the catch-up loop as written: step-function invocations per call
+    run_steps_stream(ctx, drv, rng.fork("steps"))
+
     # ---- stream 6: sink level – a real FileSink, frozen clock, observable = messages per file
     run_sink_stream(ctx, drv, rng, boost)
     dedup_broken(ctx)
@@ -1037,6 +1061,110 @@ def run_ctime_stream(ctx, drv, rng):
             ctx.violation("implementation and model disagree on the creation time of an existing file %r: impl %d / after "
                           "set %d, model %s (the model is characterised by creation_time_source / set_then_get)"
                           % (rep["aging"], got, back, o), dict(rep, observed=got), kind="correspondence")
+
+
+def oracle_steps(sem, c_us, rec_off, utcs):
+    """how often each call must invoke the step function, by the specification alone: once for the first limit when
+    there is no time of day to start from (interval, hourly..yearly) or when the creation day's candidate is not after
+    the creation instant / not on the requested weekday; then once per boundary in (latest instant seen, record]"""
+    g = frame_offset(sem, rec_off)
+    c = naive_of(c_us + g)
+    out, tau, first = [], c, True
+    for u in utcs:
+        n = 0
+        if first:
+            first = False
+            if sem[0] in ("interval", "freq"):
+                n = 1
+            else:
+                tod = pydt.time(*((sem[1] if sem[0] == "daily" else sem[2]) or (0, 0, 0, 0)))
+                cand = pydt.datetime.combine(c.date(), tod)
+                if cand <= c or (sem[0] == "weekday" and cand.weekday() != sem[1]):
+                    n = 1
+        key = naive_of(u + g)
+        t = tau
+        while True:
+            b = next_boundary(sem, t, c)
+            if b > key:
+                break
+            n += 1
+            t = b
+        tau = max(tau, key)
+        out.append(n)
+    return out
+
+
+def impl_steps(obj, calls, limit_s=5):
+    """like impl_fn for one time condition, with the step function wrapped by a counter
+    -> ("ok", [count per call]) | ("skip",) | …"""
+    made = impl_make(obj)
+    if made[0] == "err":
+        return made
+    fn = made[1]
+    if not hasattr(fn, "_step_forward"):
+        return ("skip",)
+    inner = fn._step_forward
+    n = {"k": 0}
+
+    def counting(t):
+        n["k"] += 1
+        return inner(t)
+
+    fn._step_forward = counting
+    f = StubFile("/nonexistent/verif-c07.log")
+    cur = {"ct": 0.0}
+    out = []
+    with patched_ctime(lambda path: cur["ct"]):
+        try:
+            with time_limit(limit_s):
+                for ct, utc, off, text, tell in calls:
+                    cur["ct"] = ct
+                    n["k"] = 0
+                    fn(make_message(text, utc, off), f)
+                    out.append(n["k"])
+        except Hang:
+            HANGS["n"] += 1
+            return ("hang", len(out))
+        except Exception as e:  # noqa
+            return ("raised", canon_err(e), len(out))
+    return ("ok", out)
+
+
+def run_steps_stream(ctx, drv, rng):
+    """the catch-up loop as written: the number of `_step_forward` invocations per call (first limit + loop
+    iterations), counted on the implementation by wrapping the step function, against the count the boundaries
+    themselves demand (oracle) and against the model's `timeRunSteps` (driver op `steps`).  The count is not part of
+    the property; a difference is a broken tie of `catch_up_loop_as_written` / `catch_up_interval_cost`, not a violation."""
+    lines, exp = [], []
+    for i in range(ctx.n(1200, 20000)):
+        if HANGS["n"] >= 8:
+            break
+        meaning = gen_meaning(rng)
+        sem = normal(meaning)
+        obj, token, how = render(rng, meaning)
+        off = rng.choice(OFFSETS)
+        c_us = gen_creation(rng) - off
+        ts, eff = ctime_pair(c_us)
+        stamps = gen_stamps(rng, sem, eff, off, rng.range(1, 6))
+        got = impl_steps(obj, [(ts, u, off, "m", 0) for u in stamps])
+        want = oracle_steps(sem, eff, off, stamps)
+        ctx.case(("steps", token, eff, off, tuple(stamps)), nontrivial=(max(want) > 1))
+        ctx.stat("step_counts")
+        ctx.stat("step_count_max", max(want))
+        if got[0] != "ok":
+            continue        # judged by the function-level stream
+        if got[1] != want:
+            ctx.broke("correspondence Rotation.catchUpIters (implementation vs boundaries)",
+                      "rotation %r creation %d offset %d stamps %r: step function invoked %r times, the boundaries "
+                      "demand %r" % (obj if isinstance(obj, str) else repr(obj), eff, off, stamps, got[1], want))
+        lines.append("steps %s %s" % (token, " ".join("%d,%d,%d,1,1,0" % (eff, u, off) for u in stamps)))
+        exp.append((repr(obj), got[1]))
+    out = run_model(ctx, drv, lines)
+    for (what, got), o in zip(exp, out):
+        ctx.traces_validated += 1
+        if o != "ok " + ",".join(str(k) for k in got):
+            ctx.stat("disagreements")
+            ctx.broke("correspondence Rotation.timeRunSteps", "rotation %s: impl %r, model %r" % (what, got, o))
 
 
 def files_from_bits(bits):
